@@ -864,3 +864,31 @@ func verifLenIsHeaderPlusLength(p *PathAttribute) bool {
 //@   pure
 //@   modifies nothing
 //@   ensures result <==> (subcode == BGP_ERROR_SUB_MAXIMUM_NUMBER_OF_PREFIXES_REACHED || subcode == BGP_ERROR_SUB_ADMINISTRATIVE_SHUTDOWN || subcode == BGP_ERROR_SUB_PEER_DECONFIGURED || subcode == BGP_ERROR_SUB_HARD_RESET || (hardResetOnAdminReset && subcode == BGP_ERROR_SUB_ADMINISTRATIVE_RESET))
+
+// NEXT_HOP: decode(encode(a)) keeps the address family and the announced length, reports through Len() the
+// octets emitted, and gives back the same address for IPv4 (an IPv4 netip.Addr is determined by its 4 octets;
+// for IPv6 the netip model has no such axiom, so only family and framing are decided there).
+//@ props C04
+//@ func verifRoundTripNextHop
+//@   requires a != nil && validatePathAttributeFlags(a.Type, a.Flags) == ""
+//@   requires (a.Value.Is4() && a.Length == 4) || (a.Value.Is6() && a.Length == 16)
+//@   inline-calls
+//@   modifies nothing
+//@   ensures result
+func verifRoundTripNextHop(a *PathAttributeNextHop) bool {
+	buf, err := a.Serialize()
+	if err != nil {
+		return false
+	}
+	b := &PathAttributeNextHop{}
+	if err := b.DecodeFromBytes(buf); err != nil {
+		return false
+	}
+	if b.Value.Is4() != a.Value.Is4() || b.Value.Is6() != a.Value.Is6() {
+		return false
+	}
+	if a.Value.Is4() && b.Value != a.Value {
+		return false
+	}
+	return b.Type == a.Type && b.Flags == a.Flags && b.Length == a.Length && a.Len() == len(buf) && b.Len() == len(buf)
+}
